@@ -1349,6 +1349,16 @@ def translate(ctx):
     out.append('(* IkeSaController.__init__ / close: the calls, in program order *)')
     out.append('Definition controller_init_steps : list ctl_step := [' + '; '.join(init_steps) + '].')
     out.append('Definition controller_close_steps : list ctl_step := [' + '; '.join(close_steps) + '].\n')
+    # index of the OUT policy: the `index = ...` statement of create_policies
+    cp = xsrc.func('Xfrm.create_policies')
+    idx_assign = [st for st in ast.walk(cp) if isinstance(st, ast.Assign) and len(st.targets) == 1
+                  and isinstance(st.targets[0], ast.Name) and st.targets[0].id == 'index']
+    if len(idx_assign) != 1:
+        xsrc.fail(cp, 'create_policies no longer computes `index` once')
+    cs.atoms = {'ipsec_conf.index': ('index', 'Z')}
+    out_idx, oty = cs.gexpr(idx_assign[0].value, {})
+    out.append('(* Xfrm.create_policies: index given to the outbound policy of an entry *)')
+    out.append(f'Definition policy_out_index (index : Z) : Z := {out_idx}.\n')
     out.append('(* IkeSaController.process_acquire: third argument of ike_sa.process_acquire *)')
     out.append(f'Definition acquire_index (index : Z) : Z := {idx_expr}.\n')
     out.append('(* IkeSa.process_acquire: next(x for x in self.configuration.protect if <this>) *)')
